@@ -79,8 +79,10 @@ def h_array(vm, mir, op, ka):
     info = {'op': op}
     key = None; wv = None; vals = []
 
+    frozen = [freeze_val(vm, a)]
+
     def d(m):
-        out = {'op': op, 'a': val_to_json(vm, a, m)}
+        out = {'op': op, 'a': frozen[0](m)}
         if key is not None: out['key'] = val_to_json(vm, key, m)
         if wv is not None: out['write'] = val_to_json(vm, wv, m)
         if vals: out['vals'] = [val_to_json(vm, x, m) for x in vals]
@@ -187,7 +189,7 @@ def h_array(vm, mir, op, ka):
     elif op == 'index':
         if ka == 4:
             a2 = sym_val(vm, 'a', kinds=[4], str_factory=lambda vm_, nm: C07.sym_bstr(vm_, nm, 3)); force(vm, a2)
-            cl = Cell(a2); before = snap(vm, a2); a = a2; orig = Cell(vm.clone_val(a2))
+            cl = Cell(a2); before = snap(vm, a2); a = a2; orig = Cell(vm.clone_val(a2)); frozen[0] = freeze_val(vm, a2)
         key, kc, idx = key_for('k')
         if idx == 'max': vm.witness = {'index-done'}; return ck.out       # reading at a huge index is the same code path as any out-of-range index
         r = vm.run_fn(fn(mir, 'Val', 'index'), [Ref(cl), R(vm.clone_val(key))])
